@@ -15,6 +15,92 @@ pub enum Val {
     Ref(Box<Val>),
     /// Option<v>: (is_some condition, payload)
     Opt(String, Box<Val>),
+    /// Derivative (dense view): symbolic matrix expression evaluated entry-wise
+    Deriv(M),
+}
+
+#[derive(Clone, Copy, Debug, PartialEq, Eq, Hash)]
+pub enum Ix {
+    Z,
+    I,
+    J,
+}
+
+#[derive(Clone, Debug)]
+pub struct M {
+    pub id: usize,
+    pub e: std::rc::Rc<MatE>,
+}
+
+#[derive(Clone, Debug)]
+pub enum MatE {
+    Zero,
+    Leaf(String),
+    Scale(M, String),
+    DivS(M, String),
+    Add(M, M),
+    Sub(M, M),
+    Neg(M),
+    MatMul(M, M),
+    TrMul(M, M),
+    /// part `part` (e.g. "v1") of the struct returned by an extracted function
+    Call { mname: String, part: String, natural: Vec<Ix>, args: Vec<(Kind, Val)> },
+    /// if-merge of two matrices
+    Ite(String, M, M),
+}
+
+static MID: std::sync::atomic::AtomicUsize = std::sync::atomic::AtomicUsize::new(1);
+pub fn mk(e: MatE) -> M {
+    M { id: MID.fetch_add(1, std::sync::atomic::Ordering::Relaxed), e: std::rc::Rc::new(e) }
+}
+
+/// leaves of a vector-type struct in canonical parameter order: (leaf name suffix, part, index vars)
+pub fn vec_leaves(db: &Db, ty: &str) -> Vec<(String, String, Vec<Ix>)> {
+    let ti = &db.types[ty];
+    let nvec = ti.parts.iter().filter(|(_, k)| matches!(k, PartKind::Deriv(r, c) if r == "U1" || c == "U1")).count();
+    let nmat = ti.parts.iter().filter(|(_, k)| matches!(k, PartKind::Deriv(r, c) if r != "U1" && c != "U1")).count();
+    let mut out = vec![];
+    let mut seen_vec = 0;
+    for (p, k) in &ti.parts {
+        match k {
+            PartKind::Sc => out.push((p.clone(), p.clone(), vec![])),
+            PartKind::Deriv(r, c) if r == "U1" || c == "U1" => {
+                seen_vec += 1;
+                if nvec == 1 && nmat >= 1 {
+                    out.push((format!("{p}_i"), p.clone(), vec![Ix::I]));
+                    out.push((format!("{p}_j"), p.clone(), vec![Ix::J]));
+                } else if nvec == 2 && seen_vec == 2 {
+                    out.push((format!("{p}_j"), p.clone(), vec![Ix::J]));
+                } else {
+                    out.push((format!("{p}_i"), p.clone(), vec![Ix::I]));
+                }
+            }
+            PartKind::Deriv(..) => out.push((format!("{p}_ij"), p.clone(), vec![Ix::I, Ix::J])),
+        }
+    }
+    out
+}
+
+/// output parts of a vector-type struct: (out name, part, index vars)
+pub fn vec_outs(db: &Db, ty: &str) -> Vec<(String, String, Vec<Ix>)> {
+    let mut seen = std::collections::HashSet::new();
+    vec_leaves(db, ty).into_iter().filter(|(_, p, _)| seen.insert(p.clone())).collect()
+}
+
+pub fn is_vec_type(db: &Db, ty: &str) -> bool {
+    db.types.get(ty).map(|t| t.parts.iter().any(|(_, k)| matches!(k, PartKind::Deriv(..)))).unwrap_or(false)
+}
+
+fn part_orient(db: &Db, ty: &str, part: &str) -> (bool, bool) {
+    // (row_is_unit, col_is_unit)
+    for (p, k) in &db.types[ty].parts {
+        if p == part {
+            if let PartKind::Deriv(r, c) = k {
+                return (r == "U1", c == "U1");
+            }
+        }
+    }
+    (false, false)
 }
 
 #[derive(Clone, Debug, PartialEq)]
@@ -135,12 +221,12 @@ pub fn flat_kind(db: &Db, root: &str, k: &Kind, out: &mut Vec<(String, &'static 
         Kind::Bool => out.push((root.to_string(), "bool")),
         Kind::Unit => {}
         Kind::Struct(t) => {
-            let ti = db.types.get(t).ok_or("unknown type")?;
-            for (p, pk) in &ti.parts {
-                match pk {
-                    PartKind::Sc => out.push((format!("{root}_{p}"), "real")),
-                    PartKind::Deriv(..) => return Err("Derivative part (vector types use the entry evaluator)".into()),
-                }
+            db.types.get(t).ok_or("unknown type")?;
+            if t == "Derivative" {
+                return Err("bare Derivative parameter".into());
+            }
+            for (leaf, _, _) in vec_leaves(db, t) {
+                out.push((format!("{root}_{leaf}"), "real"));
             }
         }
         Kind::Tuple(v) => {
@@ -162,10 +248,13 @@ fn val_of_kind(db: &Db, root: &str, k: &Kind) -> R<Val> {
         Kind::Struct(t) => {
             let ti = db.types.get(t).ok_or("unknown type")?;
             let mut fs = vec![];
+            if t == "Derivative" {
+                return Err("bare Derivative parameter".into());
+            }
             for (p, pk) in &ti.parts {
                 match pk {
                     PartKind::Sc => fs.push((p.clone(), Val::Real(format!("{root}_{p}")))),
-                    PartKind::Deriv(..) => return Err("Derivative part".into()),
+                    PartKind::Deriv(..) => fs.push((p.clone(), Val::Deriv(mk(MatE::Leaf(format!("{root}_{p}")))))),
                 }
             }
             Val::Struct(t.clone(), fs)
@@ -285,6 +374,14 @@ pub struct Ev<'a> {
     depth_branch: usize,
     /// mirrors available (by mname) with their param lists / out parts
     pub sigs: &'a HashMap<String, Mirror>,
+    memo: HashMap<(usize, Ix, Ix), String>,
+}
+
+#[derive(Clone, Copy, Debug, PartialEq)]
+pub enum Mode {
+    Full,
+    Only(Ix, Ix),
+    ReOnly,
 }
 
 impl<'a> Ev<'a> {
@@ -331,6 +428,162 @@ impl<'a> Ev<'a> {
         None
     }
 
+    /// entry (a,b) of a symbolic matrix
+    pub fn mat_at(&mut self, m: &M, a: Ix, b: Ix) -> R<String> {
+        if let Some(v) = self.memo.get(&(m.id, a, b)) {
+            return Ok(v.clone());
+        }
+        let e = match &*m.e {
+            MatE::Zero => "0real".to_string(),
+            MatE::Leaf(base) => match (a, b) {
+                (Ix::Z, Ix::I) | (Ix::I, Ix::Z) => format!("{base}_i"),
+                (Ix::Z, Ix::J) | (Ix::J, Ix::Z) => format!("{base}_j"),
+                (Ix::I, Ix::J) => format!("{base}_ij"),
+                _ => return Err(format!("entry ({:?},{:?}) of {base} is outside the flat leaf set", a, b)),
+            },
+            MatE::Scale(x, f) => {
+                let v = self.mat_at(x, a, b)?;
+                format!("({v} * {f})")
+            }
+            MatE::DivS(x, f) => {
+                let v = self.mat_at(x, a, b)?;
+                format!("rdiv({v}, {f})")
+            }
+            MatE::Add(x, y) => {
+                let (u, v) = (self.mat_at(x, a, b)?, self.mat_at(y, a, b)?);
+                format!("({u} + {v})")
+            }
+            MatE::Sub(x, y) => {
+                let (u, v) = (self.mat_at(x, a, b)?, self.mat_at(y, a, b)?);
+                format!("({u} - {v})")
+            }
+            MatE::Neg(x) => {
+                let v = self.mat_at(x, a, b)?;
+                format!("(-{v})")
+            }
+            // inner dimension is U1 for every product the crate forms (checked by the Mx contracts in the exec unit)
+            MatE::MatMul(x, y) => {
+                let (u, v) = (self.mat_at(x, a, Ix::Z)?, self.mat_at(y, Ix::Z, b)?);
+                format!("({u} * {v})")
+            }
+            MatE::TrMul(x, y) => {
+                let (u, v) = (self.mat_at(x, Ix::Z, a)?, self.mat_at(y, Ix::Z, b)?);
+                format!("({u} * {v})")
+            }
+            MatE::Ite(c, x, y) => {
+                let (u, v) = (self.mat_at(x, a, b)?, self.mat_at(y, a, b)?);
+                format!("(if {c} {{ {u} }} else {{ {v} }})")
+            }
+            MatE::Call { mname, part, natural, args } => {
+                let mode = match natural.len() {
+                    1 => {
+                        let x = if a == Ix::Z { b } else if b == Ix::Z { a } else { return Err("vector part indexed as matrix".into()) };
+                        if x == Ix::Z {
+                            return Err("vector part at (0,0)".into());
+                        }
+                        Mode::Only(natural[0], x)
+                    }
+                    2 => {
+                        if (a, b) != (Ix::I, Ix::J) {
+                            return Err("matrix part of a call result at a transposed / diagonal entry".into());
+                        }
+                        Mode::Full
+                    }
+                    _ => return Err("bad natural index".into()),
+                };
+                let mut flat = vec![];
+                for (k, v) in args.clone() {
+                    self.flatten_val(&strip_ref(v), &k, mode, &mut flat)?;
+                }
+                format!("{mname}_{part}({})", flat.join(", "))
+            }
+        };
+        let v = self.fresh(e, "real");
+        self.memo.insert((m.id, a, b), v.clone());
+        Ok(v)
+    }
+
+    pub fn flatten_val(&mut self, v: &Val, k: &Kind, mode: Mode, out: &mut Vec<String>) -> R<()> {
+        match (v, k) {
+            (Val::Real(s), Kind::Sc | Kind::Fl) => out.push(s.clone()),
+            (Val::Int(s), Kind::Int(_)) => out.push(s.clone()),
+            (Val::Bool(s), Kind::Bool) => out.push(s.clone()),
+            (Val::Unit, Kind::Unit) => {}
+            (Val::Struct(t, fs), Kind::Struct(t2)) if t == t2 => {
+                let ty = t.clone();
+                for (_, part, idx) in vec_leaves(self.db, &ty) {
+                    let fv = fs.iter().find(|(n, _)| *n == part).map(|(_, v)| v.clone()).ok_or("missing part")?;
+                    match strip_ref(fv) {
+                        Val::Real(s) => out.push(s),
+                        Val::Deriv(m) => {
+                            let (row_unit, _col_unit) = part_orient(self.db, &ty, &part);
+                            let at1 = |x: Ix| if row_unit { (Ix::Z, x) } else { (x, Ix::Z) };
+                            let e = match (mode, idx.as_slice()) {
+                                (Mode::Full, [x]) => {
+                                    let (a, b) = at1(*x);
+                                    self.mat_at(&m, a, b)?
+                                }
+                                (Mode::Full, [_, _]) => self.mat_at(&m, Ix::I, Ix::J)?,
+                                (Mode::Only(nat, x), [y]) if *y == nat => {
+                                    let (a, b) = at1(x);
+                                    self.mat_at(&m, a, b)?
+                                }
+                                _ => "0real".to_string(),
+                            };
+                            out.push(e);
+                        }
+                        _ => return Err("non-scalar struct part".into()),
+                    }
+                }
+            }
+            (Val::Tuple(vs), Kind::Tuple(ks)) if vs.len() == ks.len() => {
+                for (v, k) in vs.iter().zip(ks) {
+                    self.flatten_val(&strip_ref(v.clone()), k, mode, out)?;
+                }
+            }
+            (Val::Ref(b), k) => self.flatten_val(b, k, mode, out)?,
+            _ => return Err(format!("argument shape mismatch: {:?} vs {:?}", v, k)),
+        }
+        Ok(())
+    }
+
+    /// result value of a call of `f` (mirror base name `mname`) with the given (kind, value) arguments
+    fn build_result(&mut self, mname: &str, ret: &Kind, prefix: &str, args: &[(Kind, Val)]) -> R<Val> {
+        let key = |s: &str| if prefix.is_empty() { s.to_string() } else if s.is_empty() { prefix.to_string() } else { format!("{prefix}_{s}") };
+        let scalar_call = |ev: &mut Ev, part: String, sort: &'static str| -> R<String> {
+            let mut flat = vec![];
+            for (k, v) in args {
+                ev.flatten_val(&strip_ref(v.clone()), k, Mode::ReOnly, &mut flat)?;
+            }
+            Ok(ev.fresh(format!("{mname}_{part}({})", flat.join(", ")), sort))
+        };
+        Ok(match ret {
+            Kind::Sc | Kind::Fl => Val::Real(scalar_call(self, key(if prefix.is_empty() { "ret" } else { "" }), "real")?),
+            Kind::Int(_) => Val::Int(scalar_call(self, key(if prefix.is_empty() { "ret" } else { "" }), "int")?),
+            Kind::Bool => Val::Bool(scalar_call(self, key(if prefix.is_empty() { "ret" } else { "" }), "bool")?),
+            Kind::Unit => Val::Unit,
+            Kind::Struct(t) => {
+                let mut fs = vec![];
+                for (out, part, idx) in vec_outs(self.db, t) {
+                    if idx.is_empty() {
+                        fs.push((part.clone(), Val::Real(scalar_call(self, key(&out), "real")?)));
+                    } else {
+                        fs.push((part.clone(), Val::Deriv(mk(MatE::Call { mname: mname.to_string(), part: key(&out), natural: idx.clone(), args: args.to_vec() }))));
+                    }
+                }
+                Val::Struct(t.clone(), fs)
+            }
+            Kind::Tuple(ks) => {
+                let mut vs = vec![];
+                for (i, k) in ks.iter().enumerate() {
+                    vs.push(self.build_result(mname, k, &key(&i.to_string()), args)?);
+                }
+                Val::Tuple(vs)
+            }
+            Kind::Opt(_) => return Err("Option return of callee".into()),
+        })
+    }
+
     /// call the mirror of an extracted function on argument values
     pub fn call_func(&mut self, f: &Func, args: Vec<Val>) -> R<Val> {
         let m = self.sigs.get(&f.mname).ok_or_else(|| format!("callee {} has no mirror", f.id()))?.clone();
@@ -338,41 +591,26 @@ impl<'a> Ev<'a> {
         if ps.len() != args.len() {
             return Err(format!("arity mismatch calling {}", f.id()));
         }
-        let mut flat: Vec<String> = vec![];
-        for (p, a) in ps.iter().zip(args.iter()) {
-            flatten_val(&strip_ref(a.clone()), &p.kind, &mut flat).map_err(|e| format!("{e} (arg {} of {})", p.name, f.id()))?;
-        }
-        let argstr = flat.join(", ");
-        let mut outs: HashMap<String, String> = HashMap::new();
-        for (part, _, sort) in &m.outs {
-            let call = format!("{}_{}({})", f.mname, part, argstr);
-            let v = self.fresh(call, sort);
-            outs.insert(part.clone(), v);
-        }
         if m.mutates_self {
             return Err("call of a &mut self function in expression position".into());
         }
-        build_from_outs(self.db, &m.ret, "", &outs)
+        let kargs: Vec<(Kind, Val)> = ps.iter().map(|p| p.kind.clone()).zip(args.into_iter().map(strip_ref)).collect();
+        // shape check of the arguments
+        let mut tmp = vec![];
+        for (k, v) in &kargs {
+            self.flatten_val(v, k, Mode::ReOnly, &mut tmp).map_err(|e| format!("{e} (calling {})", f.id()))?;
+        }
+        self.build_result(&f.mname, &m.ret, "", &kargs)
     }
 
     fn call_mut_self(&mut self, f: &Func, self_val: Val, rest: Vec<Val>) -> R<Val> {
         // returns the new value of self
-        let m = self.sigs.get(&f.mname).ok_or_else(|| format!("callee {} has no mirror", f.id()))?.clone();
+        self.sigs.get(&f.mname).ok_or_else(|| format!("callee {} has no mirror", f.id()))?;
         let ps = params_of(self.db, f)?;
         let mut args = vec![self_val];
         args.extend(rest);
-        let mut flat: Vec<String> = vec![];
-        for (p, a) in ps.iter().zip(args.iter()) {
-            flatten_val(&strip_ref(a.clone()), &p.kind, &mut flat)?;
-        }
-        let argstr = flat.join(", ");
-        let mut outs: HashMap<String, String> = HashMap::new();
-        for (part, _, sort) in &m.outs {
-            let call = format!("{}_{}({})", f.mname, part, argstr);
-            let v = self.fresh(call, sort);
-            outs.insert(part.clone(), v);
-        }
-        build_from_outs(self.db, &Kind::Struct(f.ty.clone()), "", &outs)
+        let kargs: Vec<(Kind, Val)> = ps.iter().map(|p| p.kind.clone()).zip(args.into_iter().map(strip_ref)).collect();
+        self.build_result(&f.mname, &Kind::Struct(f.ty.clone()), "", &kargs)
     }
 
     pub fn eval_block(&mut self, b: &syn::Block) -> R<Val> {
@@ -693,6 +931,7 @@ impl<'a> Ev<'a> {
             (Val::Int(x), Val::Int(y)) => Ok(Val::Int(self.fresh(format!("(if {c} {{ {x} }} else {{ {y} }})"), "int"))),
             (Val::Bool(x), Val::Bool(y)) => Ok(Val::Bool(self.fresh(format!("(if {c} {{ {x} }} else {{ {y} }})"), "bool"))),
             (Val::Unit, Val::Unit) => Ok(Val::Unit),
+            (Val::Deriv(x), Val::Deriv(y)) => Ok(Val::Deriv(mk(MatE::Ite(c.to_string(), x, y)))),
             (Val::Struct(t, fa), Val::Struct(t2, fb)) if t == t2 => {
                 let mut fs = vec![];
                 for ((n, x), (_, y)) in fa.into_iter().zip(fb) {
@@ -721,6 +960,7 @@ impl<'a> Ev<'a> {
     fn neg(&mut self, v: Val) -> R<Val> {
         let r = is_ref(&v);
         match strip_ref(v) {
+            Val::Deriv(m) => Ok(Val::Deriv(mk(MatE::Neg(m)))),
             Val::Real(x) => Ok(self.real(format!("(-{x})"))),
             Val::Int(x) => Ok(Val::Int(format!("(-{x})"))),
             Val::Struct(t, fs) => {
@@ -745,6 +985,17 @@ impl<'a> Ev<'a> {
         match (strip_ref(l), strip_ref(r)) {
             (Val::Real(a), Val::Real(b)) => Ok(self.real(format!("({a} {sym} {b})"))),
             (Val::Int(a), Val::Int(b)) => Ok(Val::Int(format!("({a} {sym} {b})"))),
+            (Val::Deriv(a), Val::Real(b)) => match tr {
+                "Mul" => Ok(Val::Deriv(mk(MatE::Scale(a, b)))),
+                "Div" => Ok(Val::Deriv(mk(MatE::DivS(a, b)))),
+                _ => Err(format!("Derivative {sym} scalar")),
+            },
+            (Val::Deriv(a), Val::Deriv(b)) => match tr {
+                "Mul" => Ok(Val::Deriv(mk(MatE::MatMul(a, b)))),
+                "Add" => Ok(Val::Deriv(mk(MatE::Add(a, b)))),
+                "Sub" => Ok(Val::Deriv(mk(MatE::Sub(a, b)))),
+                _ => Err(format!("Derivative {sym} Derivative")),
+            },
             (Val::Struct(t, fs), Val::Struct(t2, fs2)) if t == t2 => {
                 let rhs = if rr { Rhs::SelfRef } else { Rhs::SelfOwn };
                 let f = self.db.find_op(&t, tr, lr, &rhs).ok_or(format!("no {tr} impl ({lr},{rr}) for {t}"))?.clone();
@@ -764,6 +1015,16 @@ impl<'a> Ev<'a> {
         let rr = is_ref(&rhs);
         let out = match (strip_ref(cur), strip_ref(rhs)) {
             (Val::Real(a), Val::Real(b)) => self.real(format!("({a} {sym} {b})")),
+            (Val::Deriv(a), Val::Real(b)) => match tr {
+                "MulAssign" => Val::Deriv(mk(MatE::Scale(a, b))),
+                "DivAssign" => Val::Deriv(mk(MatE::DivS(a, b))),
+                _ => return Err("Derivative op= scalar".into()),
+            },
+            (Val::Deriv(a), Val::Deriv(b)) => match tr {
+                "AddAssign" => Val::Deriv(mk(MatE::Add(a, b))),
+                "SubAssign" => Val::Deriv(mk(MatE::Sub(a, b))),
+                _ => return Err("Derivative op= Derivative".into()),
+            },
             (Val::Int(a), Val::Int(b)) => Val::Int(format!("({a} {sym} {b})")),
             (Val::Struct(t, fs), Val::Struct(t2, fs2)) if t == t2 => {
                 let rk = if rr { Rhs::SelfRef } else { Rhs::SelfOwn };
@@ -823,8 +1084,20 @@ impl<'a> Ev<'a> {
             let recv = args.remove(0);
             return self.method_on(recv, &name, args);
         }
+        if head.len() == 1 && head[0] == "Derivative" && name == "none" && c.args.is_empty() {
+            return Ok(Val::Deriv(mk(MatE::Zero)));
+        }
         let ty = self.resolve_ty(&head.to_vec()).ok_or(format!("call of {}", segs.join("::")))?;
         let args = self.eval_args(&c.args)?;
+        if name == "new" && is_vec_type(self.db, &ty) && ty != "Derivative" {
+            // struct constructor of a vector type: parts by position (its exec contract is field-wise equality)
+            let ti = self.db.types[&ty].clone();
+            if ti.parts.len() != args.len() {
+                return Err("constructor arity".into());
+            }
+            let fs = ti.parts.iter().map(|(p, _)| p.clone()).zip(args.into_iter().map(strip_ref)).collect();
+            return Ok(Val::Struct(ty, fs));
+        }
         let f = self.db.find_method(&ty, &name).ok_or(format!("no function {ty}::{name}"))?.clone();
         let ps = params_of(self.db, &f)?;
         if ps.first().map(|p| p.name == "self" && p.is_mut).unwrap_or(false) {
@@ -856,6 +1129,14 @@ impl<'a> Ev<'a> {
                 self.call_func(&f, all)
             }
             Val::Tuple(vs) if name == "clone" => Ok(Val::Tuple(vs)),
+            Val::Deriv(m) => match (name, args.len()) {
+                ("clone", 0) => Ok(Val::Deriv(m)),
+                ("tr_mul", 1) => match strip_ref(args[0].clone()) {
+                    Val::Deriv(o) => Ok(Val::Deriv(mk(MatE::TrMul(m, o)))),
+                    _ => Err("tr_mul argument".into()),
+                },
+                _ => Err(format!("Derivative method {name}")),
+            },
             Val::Opt(c, p) => match name {
                 "unwrap" => Ok(*p),
                 "is_some" => Ok(Val::Bool(c)),
@@ -906,61 +1187,8 @@ fn is_atom(e: &str) -> bool {
     e.chars().all(|c| c.is_alphanumeric() || c == '_') || (e.ends_with("real") && e[..e.len() - 4].chars().all(|c| c.is_ascii_digit()))
 }
 
-fn flatten_val(v: &Val, k: &Kind, out: &mut Vec<String>) -> R<()> {
-    match (v, k) {
-        (Val::Real(s), Kind::Sc | Kind::Fl) => out.push(s.clone()),
-        (Val::Int(s), Kind::Int(_)) => out.push(s.clone()),
-        (Val::Bool(s), Kind::Bool) => out.push(s.clone()),
-        (Val::Unit, Kind::Unit) => {}
-        (Val::Struct(t, fs), Kind::Struct(t2)) if t == t2 => {
-            for (_, fv) in fs {
-                match strip_ref(fv.clone()) {
-                    Val::Real(s) => out.push(s),
-                    _ => return Err("non-scalar struct part".into()),
-                }
-            }
-        }
-        (Val::Tuple(vs), Kind::Tuple(ks)) if vs.len() == ks.len() => {
-            for (v, k) in vs.iter().zip(ks) {
-                flatten_val(&strip_ref(v.clone()), k, out)?;
-            }
-        }
-        (Val::Ref(b), k) => flatten_val(b, k, out)?,
-        _ => return Err(format!("argument shape mismatch: {:?} vs {:?}", v, k)),
-    }
-    Ok(())
-}
-
-/// rebuild a value of kind `k` from named flat outputs
-fn build_from_outs(db: &Db, k: &Kind, prefix: &str, outs: &HashMap<String, String>) -> R<Val> {
-    let key = |s: &str| if prefix.is_empty() { s.to_string() } else if s.is_empty() { prefix.to_string() } else { format!("{prefix}_{s}") };
-    let get = |s: &str| outs.get(&key(s)).cloned().ok_or(format!("missing out {}", key(s)));
-    Ok(match k {
-        Kind::Sc | Kind::Fl => Val::Real(get(if prefix.is_empty() { "ret" } else { "" })?),
-        Kind::Int(_) => Val::Int(get(if prefix.is_empty() { "ret" } else { "" })?),
-        Kind::Bool => Val::Bool(get(if prefix.is_empty() { "ret" } else { "" })?),
-        Kind::Unit => Val::Unit,
-        Kind::Struct(t) => {
-            let ti = db.types.get(t).ok_or("unknown type")?;
-            let mut fs = vec![];
-            for (p, _) in &ti.parts {
-                fs.push((p.clone(), Val::Real(get(p)?)));
-            }
-            Val::Struct(t.clone(), fs)
-        }
-        Kind::Tuple(ks) => {
-            let mut vs = vec![];
-            for (i, k) in ks.iter().enumerate() {
-                vs.push(build_from_outs(db, k, &key(&i.to_string()), outs)?);
-            }
-            Val::Tuple(vs)
-        }
-        Kind::Opt(_) => return Err("Option return of callee".into()),
-    })
-}
-
 /// flatten a result value into (part, expr, sort)
-fn outs_of(v: &Val, k: &Kind, prefix: &str, out: &mut Vec<(String, String, &'static str)>) -> R<()> {
+fn outs_of(ev: &mut Ev, v: &Val, k: &Kind, prefix: &str, out: &mut Vec<(String, String, &'static str)>) -> R<()> {
     let key = |s: &str| if prefix.is_empty() { s.to_string() } else if s.is_empty() { prefix.to_string() } else { format!("{prefix}_{s}") };
     match (strip_ref(v.clone()), k) {
         (Val::Real(s), Kind::Sc | Kind::Fl) => out.push((key(if prefix.is_empty() { "ret" } else { "" }), s, "real")),
@@ -968,16 +1196,28 @@ fn outs_of(v: &Val, k: &Kind, prefix: &str, out: &mut Vec<(String, String, &'sta
         (Val::Bool(s), Kind::Bool) => out.push((key(if prefix.is_empty() { "ret" } else { "" }), s, "bool")),
         (Val::Unit, Kind::Unit) => {}
         (Val::Struct(t, fs), Kind::Struct(t2)) if &t == t2 => {
-            for (n, fv) in fs {
+            for (oname, part, idx) in vec_outs(ev.db, &t) {
+                let fv = fs.iter().find(|(n, _)| *n == part).map(|(_, v)| v.clone()).ok_or("missing part in result")?;
                 match strip_ref(fv) {
-                    Val::Real(s) => out.push((key(&n), s, "real")),
+                    Val::Real(s) => out.push((key(&oname), s, "real")),
+                    Val::Deriv(m) => {
+                        let (row_unit, _) = part_orient(ev.db, &t, &part);
+                        let e = match idx.as_slice() {
+                            [x] => {
+                                let (a, b) = if row_unit { (Ix::Z, *x) } else { (*x, Ix::Z) };
+                                ev.mat_at(&m, a, b)?
+                            }
+                            _ => ev.mat_at(&m, Ix::I, Ix::J)?,
+                        };
+                        out.push((key(&oname), e, "real"));
+                    }
                     _ => return Err("non-scalar part in result".into()),
                 }
             }
         }
         (Val::Tuple(vs), Kind::Tuple(ks)) if vs.len() == ks.len() => {
             for (i, (v, k)) in vs.iter().zip(ks).enumerate() {
-                outs_of(v, k, &key(&i.to_string()), out)?;
+                outs_of(ev, v, k, &key(&i.to_string()), out)?;
             }
         }
         (v, k) => return Err(format!("result shape mismatch {:?} vs {:?}", v, k)),
@@ -988,7 +1228,7 @@ fn outs_of(v: &Val, k: &Kind, prefix: &str, out: &mut Vec<(String, String, &'sta
 pub fn mirror_of(db: &Db, f: &Func, sigs: &HashMap<String, Mirror>) -> R<Mirror> {
     let ps = params_of(db, f)?;
     let ret = ret_kind(db, f)?;
-    let mut ev = Ev { db, cur: f.ty.clone(), lets: vec![], scopes: vec![HashMap::new()], n: 0, depth_branch: 0, sigs };
+    let mut ev = Ev { db, cur: f.ty.clone(), lets: vec![], scopes: vec![HashMap::new()], n: 0, depth_branch: 0, sigs, memo: HashMap::new() };
     let mut params = vec![];
     let mut mutates_self = false;
     for p in &ps {
@@ -1009,9 +1249,9 @@ pub fn mirror_of(db: &Db, f: &Func, sigs: &HashMap<String, Mirror>) -> R<Mirror>
             return Err("&mut self function with a return value".into());
         }
         let sv = ev.lookup("self").unwrap();
-        outs_of(&sv, &Kind::Struct(f.ty.clone()), "", &mut outs)?;
+        outs_of(&mut ev, &sv, &Kind::Struct(f.ty.clone()), "", &mut outs)?;
     } else {
-        outs_of(&res, &ret, "", &mut outs)?;
+        outs_of(&mut ev, &res, &ret, "", &mut outs)?;
     }
     Ok(Mirror { params, lets: ev.lets, outs, ret, mutates_self })
 }
